@@ -690,6 +690,9 @@ func Normalize(dir string, known map[string]bool, env []string) (map[string][]by
 				fn, out, note = inlineClosureVar(pkgs[0], content, tried)
 			}
 			if fn == "" {
+				fn, out, note = dropPointerAlias(pkgs[0], content, tried)
+			}
+			if fn == "" {
 				fn, out, note = scalarReplace(pkgs[0], KnownTypes, content, tried)
 			}
 			if fn == "" && unknownTypes {
